@@ -8,7 +8,7 @@ From K Require Import Proofs.StepRefines4.
 From K Require Import Proofs.StepRefinesL.
 From K Require Import Proofs.MovExtProofs.
 From K Require Import Proofs.StepRefines6.
-From K Require Import Proofs.StepRefinesMov4 Proofs.StepRefinesMov6 Proofs.StepRefinesMovL.
+From K Require Import Proofs.StepRefinesMov4 Proofs.StepRefinesMov6 Proofs.StepRefinesMovL Proofs.StepRefinesMov78 Proofs.StepRefinesMovL10.
 Open Scope Z_scope.
 
 (* MOV Rs,Rd (B/W/L): the value of the source lane is copied unchanged into the destination lane, N and Z
@@ -484,6 +484,53 @@ Theorem step_mov_long_store_absolute24 :
     step s = Ok n (set_opc (pc s + 6) s').
 Proof. exact step_movl_store_abs24_proof. Qed.
 
+(* the 24-bit displacement forms: MOV.B/W behind the 78 prefix (eight bytes), MOV.L behind 0100 78r0 (ten bytes) *)
+Theorem step_mov_load_displacement24 :
+  forall s w0 w1 h l w4 z r disp rd n s',
+  z <> SL ->
+    cpu_ok s -> bus_bytes_ok s -> fault s = false -> pc s mod 2 = 0 -> 0 <= pc s -> pc s + 8 < 4294967296 ->
+    mem_read SW s (pc s) = Some w0 -> mem_read SW s (pc s + 2) = Some w1 ->
+    mem_read SW s (pc s + 4) = Some h -> mem_read SW s (pc s + 6) = Some l ->
+    decode_ref w0 w1 h l w4 = Some (IMovLoad z (EDisp r disp) rd, 8) ->
+    sem_ref (IMovLoad z (EDisp r disp) rd) 8 s = Some s' ->
+    mov_charge z (ea_addr z s (EDisp r disp)) 4 0 (set_opc (pc s + 6) s') = Ok n (set_opc (pc s + 6) s') ->
+    step s = Ok n (set_opc (pc s + 6) s').
+Proof. exact step_mov_load_disp24_proof. Qed.
+
+Theorem step_mov_store_displacement24 :
+  forall s w0 w1 h l w4 z rs r disp n s',
+  z <> SL ->
+    cpu_ok s -> bus_bytes_ok s -> fault s = false -> pc s mod 2 = 0 -> 0 <= pc s -> pc s + 8 < 4294967296 ->
+    mem_read SW s (pc s) = Some w0 -> mem_read SW s (pc s + 2) = Some w1 ->
+    mem_read SW s (pc s + 4) = Some h -> mem_read SW s (pc s + 6) = Some l ->
+    decode_ref w0 w1 h l w4 = Some (IMovStore z rs (EDisp r disp), 8) ->
+    sem_ref (IMovStore z rs (EDisp r disp)) 8 s = Some s' ->
+    mov_charge z (ea_addr z s (EDisp r disp)) 4 0 (set_opc (pc s + 6) s') = Ok n (set_opc (pc s + 6) s') ->
+    step s = Ok n (set_opc (pc s + 6) s').
+Proof. exact step_mov_store_disp24_proof. Qed.
+
+Theorem step_mov_long_load_displacement24 :
+  forall s w1 w2 h l r disp rd n s',
+  cpu_ok s -> bus_bytes_ok s -> fault s = false -> pc s mod 2 = 0 -> 0 <= pc s -> pc s + 10 < 4294967296 ->
+    mem_read SW s (pc s) = Some 0x0100 -> mem_read SW s (pc s + 2) = Some w1 -> mem_read SW s (pc s + 4) = Some w2 ->
+    mem_read SW s (pc s + 6) = Some h -> mem_read SW s (pc s + 8) = Some l ->
+    decode_ref 0x0100 w1 w2 h l = Some (IMovLoad SL (EDisp r disp) rd, 10) ->
+    sem_ref (IMovLoad SL (EDisp r disp) rd) 10 s = Some s' ->
+    mov_charge SL (ea_addr SL s (EDisp r disp)) 5 0 (set_opc (pc s + 8) s') = Ok n (set_opc (pc s + 8) s') ->
+    step s = Ok n (set_opc (pc s + 8) s').
+Proof. exact step_movl_load_disp24_proof. Qed.
+
+Theorem step_mov_long_store_displacement24 :
+  forall s w1 w2 h l rs r disp n s',
+  cpu_ok s -> bus_bytes_ok s -> fault s = false -> pc s mod 2 = 0 -> 0 <= pc s -> pc s + 10 < 4294967296 ->
+    mem_read SW s (pc s) = Some 0x0100 -> mem_read SW s (pc s + 2) = Some w1 -> mem_read SW s (pc s + 4) = Some w2 ->
+    mem_read SW s (pc s + 6) = Some h -> mem_read SW s (pc s + 8) = Some l ->
+    decode_ref 0x0100 w1 w2 h l = Some (IMovStore SL rs (EDisp r disp), 10) ->
+    sem_ref (IMovStore SL rs (EDisp r disp)) 10 s = Some s' ->
+    mov_charge SL (ea_addr SL s (EDisp r disp)) 5 0 (set_opc (pc s + 8) s') = Ok n (set_opc (pc s + 8) s') ->
+    step s = Ok n (set_opc (pc s + 8) s').
+Proof. exact step_movl_store_disp24_proof. Qed.
+
 Print Assumptions mov_register_refines.
 Print Assumptions mov_flags_rule.
 Print Assumptions byte_lane_read.
@@ -533,3 +580,7 @@ Print Assumptions step_mov_long_load_absolute16.
 Print Assumptions step_mov_long_store_absolute16.
 Print Assumptions step_mov_long_load_absolute24.
 Print Assumptions step_mov_long_store_absolute24.
+Print Assumptions step_mov_load_displacement24.
+Print Assumptions step_mov_store_displacement24.
+Print Assumptions step_mov_long_load_displacement24.
+Print Assumptions step_mov_long_store_displacement24.
